@@ -946,8 +946,11 @@ RUNNERS = {"directed": case_directed, "session": case_session, "root": case_root
 def worker(bdir, kind, lo, hi):
     res = core.Result()
     box = Box(bdir)
-    for i in range(lo, hi):
-        RUNNERS[kind](box, res, i)
+    try:
+        for i in range(lo, hi):
+            RUNNERS[kind](box, res, i)
+    finally:
+        shutil.rmtree(box.dir, ignore_errors=True)      # pool workers do not run atexit handlers
     return res
 
 
